@@ -434,6 +434,10 @@ let do_fmt (op : string) (args : string list) : string =
            let re = (match bdef_as_blob d with Ok b -> hex_of_bytes b | o -> soft o) in
            "ok " ^ String.concat " " (List.map string_of_n [d.bd_z; d.bd_x; d.bd_y; d.bd_gx0; d.bd_gy0; d.bd_gx1; d.bd_gy1; d.bd_toff; d.bd_tlen; d.bd_ioff; d.bd_ilen]) ^ " " ^ re
        | o -> soft o)
+  | "vt.hdr", [h] ->
+      (match hdr_from_blob (bytes_of_hex h) with Ok d -> "ok " ^ hex_of_bytes (hdr_to_blob d) | Err -> "err" | Panic -> "panic" | Overflow -> "overflow")
+  | "pm.hdr", [h] ->
+      (match pmh_deserialize (bytes_of_hex h) with Ok d -> "ok " ^ hex_of_bytes (pmh_serialize d) | Err -> "err" | Panic -> "panic" | Overflow -> "overflow")
   | "vt.bnew", [z; x0; y0; x1; y1; toff; tlen; ilen] ->
       let d = bdef_new (n_of_string z) (n_of_string x0) (n_of_string y0) (n_of_string x1) (n_of_string y1) in
       let d = { d with bd_toff = n_of_string toff; bd_tlen = n_of_string tlen; bd_ioff = N.add (n_of_string toff) (n_of_string tlen); bd_ilen = n_of_string ilen } in
@@ -576,7 +580,7 @@ let dispatch (op : string) (args : string list) : string =
   | "geo.axis" -> (match args with
       | [s; g; n; uw; ue] -> let (a, b) = axis_box geo_guard_variant (z_of_string s) (z_of_string g) (z_of_string n) (z_of_string uw) (z_of_string ue) in string_of_z a ^ " " ^ string_of_z b
       | _ -> "?geo-args")
-  | "tileid" | "idcoord" | "pmdir.ser" | "pmdir.de" | "pmdir.find" | "pmdir.asdir" | "vt.bdef" | "vt.bnew" | "vt.tidx" | "vtblocks" | "vtindex" -> do_fmt op args
+  | "tileid" | "idcoord" | "pmdir.ser" | "pmdir.de" | "pmdir.find" | "pmdir.asdir" | "vt.bdef" | "vt.hdr" | "pm.hdr" | "vt.bnew" | "vt.tidx" | "vtblocks" | "vtindex" -> do_fmt op args
   | "c12.vt" | "c12.pm" | "c12.vthdr" | "c12.pmhdr" -> do_c12 op args
   | "varint" | "svarint" | "mvt.dec" | "mvt.rt" | "mvt.merge" | "mvt.upd" -> do_mvt op args
   | _ when String.length op > 5 && String.sub op 0 5 = "json." -> do_json op args
